@@ -29,6 +29,7 @@ type c17Params struct {
 	NShards   int      `json:"nshards"`
 	W         *wParams `json:"w,omitempty"`
 	Junk      bool     `json:"junk,omitempty"`
+	JunkEarly bool     `json:"junk_early,omitempty"` // the in-band bytes arrive right after the ACT went out over the tunnel, before the CFG
 }
 
 const c17ID = "1234567890100"
@@ -325,6 +326,16 @@ func c17WorldRun(j vs.Job, p c17Params) *vs.JobResult {
 					c.Write([]byte("#fail:EVIL\n"))
 				})
 			}
+			if p.JunkEarly {
+				// type-ahead and terminal noise in the window between the ACT (which says: tunnel) and the CFG
+				vs.GoDaemon("inband-junk-early", func() {
+					// (both ends agree from the moment the server has read the ACT that says so)
+					vs.WaitUntil("junk.wait", func() bool { return w.srvTransfer != nil && w.srvTransfer.tunnelConnected })
+					n := len(w.c2s) - 1
+					w.c2s[0].Write([]byte("ls -l /tmp\r#fail:eJwDAAAAAAE\n#SUCC:1\n"))
+					w.s2c[n].Write([]byte("noise\r\n#fail:eJwDAAAAAAE\n"))
+				})
+			}
 			if p.Junk {
 				// once both ends use the tunnel, bytes arriving in-band (terminal noise, a hostile echo) must be ignored
 				vs.GoDaemon("inband-junk", func() {
@@ -458,6 +469,7 @@ func init() {
 					base := wParams{Dir: dir, Tree: "small3", Tunnel: true, Relays: relays, Timeout: 3}
 					for _, c := range []c17Params{
 						{Connector: "ok", Junk: true},
+						{Connector: "ok", JunkEarly: true},
 						{Connector: "nil"}, {Connector: "late"}, {Connector: "dead"},
 						{Connector: "ok", Attackers: []string{"wrong", "flood", "silent"}},
 					} {
@@ -468,7 +480,7 @@ func init() {
 						n := 4
 						for s := 0; s < n; s++ {
 							c.Shard, c.NShards = s, n
-							jobs = append(jobs, vs.MkJob(fmt.Sprintf("world %s relays=%d conn=%s junk=%v atk=%v %d/%d", dir, relays, c.Connector, c.Junk, c.Attackers, s, n), c))
+							jobs = append(jobs, vs.MkJob(fmt.Sprintf("world %s relays=%d conn=%s junk=%v early=%v atk=%v %d/%d", dir, relays, c.Connector, c.Junk, c.JunkEarly, c.Attackers, s, n), c))
 						}
 					}
 				}
